@@ -360,6 +360,52 @@ func c01Oracle(r *Rng, tier string, rep *Report) {
 		rep.Eval("deepnest:"+ns.name, true, "deepnest")
 	}
 
+	// (1b) moderate depths: a tree that js.Parse returns must be printable, walkable and convertible in time that does not
+	// explode with the depth (ExprStmt.String was exponential: 24 nested `x=function(){` took 20 s). Each method gets 5 s
+	// on inputs below 64 KB; a quadratic algorithm needs milliseconds there.
+	midNests := append([]nestSpec{{"funcexpr-stmt", "", "x=function(){", "};", ""}, {"arrow-stmt", "", "x=()=>{", "};", ""},
+		{"iife", "", "(function(){", "})();", ""}, {"objmethod-stmt", "", "x={m(){", "}};", ""}, {"class-stmt", "", "x=class{m(){", "}};", ""},
+		{"cond-stmt", "", "a?b:", "", "c;"}, {"call-stmt", "", "f(", ");", "a"}, {"template-stmt", "", "x=`${", "}`;", "1"}}, jsNests...)
+	for _, ns := range midNests {
+		slow := false
+		for _, d := range []int{24, 60, 150} { // an exponential method is hopeless at 60; polynomial costs (nested indenters are cubic) stay small up to 150
+			if slow {
+				break
+			}
+			src := ns.head + strings.Repeat(ns.unit, d) + ns.tail + strings.Repeat(ns.close, d)
+			if len(src) > 65536 {
+				break
+			}
+			var ast *js.AST
+			var err error
+			if pan := catch(func() { ast, err = js.Parse(parse.NewInputString(src), js.Options{}) }); pan != nil || err != nil || ast == nil {
+				rep.Eval(fmt.Sprintf("middepth:%s:%d:rejected", ns.name, d), true, "middepth-rejected")
+				continue
+			}
+			for _, m := range []struct {
+				name string
+				f    func()
+			}{{"String", func() { _ = ast.String() }}, {"JSString", func() { _ = ast.JSString() }}, {"JSONString", func() { _, _ = ast.JSONString() }}, {"Walk", func() { js.Walk(&enterAll{}, ast) }}} {
+				done := make(chan interface{}, 1)
+				f := m.f
+				go func() { done <- catch(f) }()
+				select {
+				case pan := <-done:
+					if pan != nil {
+						rep.Violate("c01-panic:tree:"+ns.name+":"+m.name, fmt.Sprintf("%s of the tree of %q nested %d deep panics: %v", m.name, ns.head+ns.unit+ns.unit+"...", d, pan), map[string]interface{}{"construct": ns.name, "depth": d, "method": m.name})
+					}
+				case <-time.After(5 * time.Second):
+					slow = true
+					rep.Violate("c01-slow:"+ns.name+":"+m.name, fmt.Sprintf("%s of the tree js.Parse returns for %q nested %d deep (%d bytes) did not finish in 5 s", m.name, ns.head+ns.unit+ns.unit+"...", d, len(src)), map[string]interface{}{"construct": ns.name, "head": ns.head, "unit": ns.unit, "close": ns.close, "tail": ns.tail, "depth": d, "method": m.name})
+				}
+				rep.Eval(fmt.Sprintf("middepth:%s:%d:%s", ns.name, d, m.name), true, "middepth")
+				if slow {
+					break
+				}
+			}
+		}
+	}
+
 	// (2) every consumer on generated, truncated and malformed inputs under the three caller policies
 	n := 6000
 	if tier == "thorough" {
